@@ -11,7 +11,8 @@ EXTENDS CookieStore
 CONSTANTS Hosts,        \* response / request hosts (label sequences)
           Paths,        \* request paths and Path attribute values
           Names, DomKinds, MaxAges, Expiries, Schemes,
-          MaxSteps, MaxTime, Cf
+          MaxSteps, MaxTime, Cf,
+          Sessions      \* simulation: include session-level actions (Hop, response Set-Cookie)
 
 VARIABLES s, last, steps
 vars == <<s, last, steps>>
@@ -39,7 +40,9 @@ KindsSmall == {"absent", "same", "parent", "child"}
 KindsTiny == {"absent", "same", "parent"}
 KindsMid == {"absent", "same", "parent", "lookalike", "dotparent", "traildot"}
 MaxAgesFull == {-1, 0, 2}
+MaxAgesSim == {-2, -1, 0, 2}   \* -2: "Max-Age=2x" (not a number: the attribute is ignored)
 ExpiriesFull == {0, 5, 13}     \* absent, past, future (absolute model times; the clock starts at T0 = 10)
+ExpiriesSim == {0, EpochDate, 5, 13}   \* EpochDate: the deletion header "Thu, 01 Jan 1970 00:00:00 GMT"
 ExpiriesSmall == {0, 13}
 ExpiriesNone == {0}
 
@@ -78,7 +81,7 @@ PathAttrs == {PA(FALSE, Root)} \cup {PA(TRUE, p) : p \in Paths}
 
 Blank == [ev |-> "init", host |-> <<>>, path |-> Root, scheme |-> "http", name |-> "", val |-> 0,
           dom |-> DA(FALSE, <<>>, FALSE, FALSE, FALSE), pth |-> PA(FALSE, Root), secure |-> FALSE,
-          maxage |-> -1, expires |-> 0, d |-> <<>>, n |-> 0]
+          maxage |-> -1, expires |-> 0, d |-> <<>>, n |-> 0, via |-> "jar", start |-> FALSE, rc |-> <<0, 0>>]
 
 Battery == {[host |-> h, path |-> p, scheme |-> sc] : h \in Hosts, p \in Paths, sc \in Schemes}
 BatterySeq == LET RECURSIVE ToSeq(_)
@@ -87,7 +90,11 @@ BatterySeq == LET RECURSIVE ToSeq(_)
 
 Init == s = Init0(Cf) /\ last = Blank /\ steps = 0
 
+\* a Set-Cookie of the session's response is the last thing before the next hop (the response
+\* that carries it also carries the redirect)
+AfterRespCookie == last.ev = "Receive" /\ last.via = "session"
 Do(e) == /\ steps < MaxSteps
+         /\ AfterRespCookie => e.ev = "Hop"
          /\ Legal(s, e)
          /\ s' = Step(s, e)
          /\ last' = e
@@ -115,6 +122,7 @@ Query(h, p, sc) == s.store # {} /\ Do([Blank EXCEPT !.ev = "Query", !.host = h, 
 RecvShapes == {<<p, PA(FALSE, Root)>> : p \in Paths} \cup {<<Root, PA(TRUE, p)>> : p \in Paths}
 Lifetimes == {<<ma, 0>> : ma \in MaxAges} \cup {<<-1, ex>> : ex \in Expiries}
                 \cup (IF 2 \in MaxAges /\ 5 \in Expiries THEN {<<2, 5>>} ELSE {})
+                \cup (IF -2 \in MaxAges THEN {<<-2, ex>> : ex \in Expiries} ELSE {})
 
 Next ==
     \/ \E h \in Hosts, sh \in RecvShapes, nm \in Names, dk \in DomKinds,
@@ -134,8 +142,30 @@ RecvRand ==
         lt == RandomElement(Lifetimes)
     IN Receive(h, sh[1], RandomElement(Names), RandomElement(DomKinds), sh[2],
                RandomElement(BOOLEAN), lt[1], lt[2])
+\* session level: a request starts (with or without per-request cookies), is redirected (a further
+\* hop: same path elsewhere, another path on the same origin, ...), its responses may set a cookie
+RcRows == {<<0, 0>>, <<0, 0>>, <<1001, 0>>, <<0, 1002>>, <<1001, 1002>>}
+Hop(start, h, p, sc, rc) ==
+    Do([Blank EXCEPT !.ev = "Hop", !.start = start, !.host = h, !.path = p, !.scheme = sc, !.rc = rc])
+HopRand ==
+    LET start == ~s.req.active \/ RandomElement(1..4) = 1
+        near == s.req.active /\ RandomElement(1..2) = 1       \* stay on the origin of the last hop
+        h == IF near THEN s.req.last[1] ELSE RandomElement(Hosts)
+        sc == IF near THEN s.req.last[3] ELSE RandomElement(Schemes)
+    IN Hop(start, h, RandomElement(Paths), sc, IF start THEN RandomElement(RcRows) ELSE <<0, 0>>)
+RecvHop ==
+    /\ s.req.active
+    /\ LET lt == RandomElement(Lifetimes)
+           pa == RandomElement(PathAttrs)
+           h == s.req.last[1]
+       IN Do([Blank EXCEPT !.ev = "Receive", !.via = "session", !.host = h, !.path = s.req.last[2],
+                           !.scheme = s.req.last[3], !.name = RandomElement(Names), !.val = Len(s.fate) + 1,
+                           !.dom = ResolveDom(h, RandomElement(DomKinds)), !.pth = pa,
+                           !.secure = RandomElement(BOOLEAN), !.maxage = lt[1], !.expires = lt[2]])
 NextSim ==
     \/ \E i \in 1..6 : RecvRand
+    \/ \E i \in 1..(IF Sessions THEN 5 ELSE 0) : HopRand
+    \/ \E i \in 1..(IF Sessions THEN 2 ELSE 0) : RecvHop
     \/ s.store # {} /\ \E i \in 1..2 : Resend(RandomElement(s.store), RandomElement(BOOLEAN),
                                                  RandomElement(Lifetimes), RandomElement(BOOLEAN))
     \/ Tick
